@@ -41,6 +41,26 @@ def check_case(ctx, case, expected):
     return True
 
 
+def check_loop(ctx, n, pre, plan, seed):
+    expected = rm.loop_expected(ctx, n, pre)
+    obs = rm.loop_case(ctx, n, pre, plan, seed)
+    sig = rm.loop_plan_sig(plan)
+    det = {"loop": [n, pre], "plan": plan, "seed": seed, "outcome": obs["outcome"], "error": obs["error"], "attempts": obs["attempts"],
+           "natural_failures": obs["natural"], "outputs": obs["outputs"], "expected": expected, "events_tail": obs["events"][-8:]}
+    if obs["outcome"] == "hang":
+        ctx.count("hangs")
+        ctx.violation("c16:hang:%s" % sig, det, "pipeline -> loop: every job fails fewer times than the limit, yet the run never ended")
+        return False
+    if obs["outcome"] != "return":
+        ctx.violation("c16:raised:%s" % sig, det, "pipeline -> loop: every job fails fewer times than the limit, yet the executor raised: %s" % obs["error"])
+        return False
+    if obs["outputs"] != expected:
+        ctx.violation("c16:outputs-differ:%s" % sig, det, "pipeline -> loop: outputs %s differ from the failure-free run %s" % (
+            json.dumps(obs["outputs"])[:200], json.dumps(expected)[:200]))
+        return False
+    return True
+
+
 def run(ctx):
     ctx.rule = ("TLC enumerates every failure plan with <=k failing (job,phase) pairs x counts 1..m x {soft, fail_stop} per shape "
                 "(pipelines 1..5, two-location pipelines, scatter/gather 1..4); the chosen plans run on the real engine and the output "
@@ -75,6 +95,15 @@ def run(ctx):
         if i in (5, 60, 100):
             ctx.sample({"shape": shape, "plan": plan, "outcome": None if case["hang"] else case["o"]["outcome"],
                         "outputs": case.get("outputs"), "attempts": None if case["hang"] else case["o"]["attempts"]})
+    # ---- pipeline -> loop shapes: no TLA+ model of loops; these runs are bound by the outputs oracle only
+    for i, (n, pre, plan) in enumerate(rm.loop_plans(ctx)):
+        if ctx.counters.get("hangs", 0) >= 8:
+            break
+        check_loop(ctx, n, pre, plan, ctx.seed * 100003 + 7000 + i)
+        ctx.case(("loop", n, pre, json.dumps(plan, sort_keys=True)), nontrivial=True)
+        ctx.impl_trace(1)
+        ctx.count("real:loop%d%s" % (n, "p" * pre))
+        n_fs += any(v[0] == "fail_stop" for v in plan.values())
     ctx.count("plans_with_fail_stop", n_fs)
     ctx.count("plans_soft_only", n_soft)
     ctx.require(n_fs >= 20 and n_soft >= 10, "vacuous selection: %d fail-stop / %d soft plans" % (n_fs, n_soft))
@@ -82,11 +111,16 @@ def run(ctx):
     ctx.assumptions += ["volatile local deployments (one directory per location); workflow inputs on a stable deployment",
                         "single-input jobs and scatter/gather; fail-stop plans on scatter shapes run one job at a time (vh.sut.recov.Serializer); "
                         "concurrent fail-stop recoveries are the subject of C19",
-                        "loops are not covered"]
+                        "pipeline -> loop shapes (1-2 upstream jobs, 2-3 iterations, engine-level wiring of tests/test_recovery.py::test_loop with "
+                        "harness-owned steps) run free under seeded delays and are bound by the outputs-equal-failure-free oracle only (no TLA+ model of loops)"]
 
 
 def replay(ctx, data):
     d = data["detail"]
+    if "loop" in d:
+        ok = check_loop(ctx, d["loop"][0], d["loop"][1], d["plan"], d.get("seed", 0))
+        print(json.dumps({"replayed": d["plan"], "ok": ok}))
+        return
     shape, plan = d["shape"], d.get("plan") or {}
     mt = max([int(v[0]) for v in plan.values()] or [1])
     preds = rm.model_runs(ctx, [(shape, dict(limit=d["limit"], maxpairs=max(1, len(plan)), maxtimes=mt))])
